@@ -149,16 +149,21 @@ def make_body(scn):
             fn = {"send": sv.sendall, "send_err": sv.sendall_stderr}[kind]
             fn(b"d" * n)
 
-        def receiver():
+        two_readers = len(reads) > 1 and reads[0] == "2R"
+        rsizes = reads[1:] if two_readers else reads
+
+        def receiver(which=(0, 1)):
             import socket
             c.settimeout(0.5)
             idle = 0
             i = 0
+            fns = (c.recv, c.recv_stderr)
             while got[0] + got[1] < total and idle < 4:
-                n = reads[i % len(reads)]
+                n = rsizes[i % len(rsizes)]
                 i += 1
                 progressed = False
-                for j, fn in enumerate((c.recv, c.recv_stderr)):
+                for j in which:
+                    fn = fns[j]
                     try:
                         d = fn(n)
                         got[j] += len(d)
@@ -168,7 +173,12 @@ def make_body(scn):
                 idle = 0 if progressed else idle + 1
 
         ths = [vthreading.Thread(target=sender, args=sd) for sd in senders]
-        ths.append(vthreading.Thread(target=receiver))
+        if two_readers:
+            # one application thread per stream: both acknowledge consumed bytes concurrently
+            ths.append(vthreading.Thread(target=receiver, args=((0,),)))
+            ths.append(vthreading.Thread(target=receiver, args=((1,),)))
+        else:
+            ths.append(vthreading.Thread(target=receiver))
         s.branching = True
         for t in ths:
             t.start()
@@ -253,6 +263,8 @@ def main(tier):
         for senders in ([("send", W + 1), ("send_err", P)], [("send", P - 64), ("send", W)]):
             for reads in ((T + 1,), (1, W)):
                 items.append(("sched", tier, (W, P, tuple(senders), reads), bound))
+        items.append(("sched", tier, (W, P, (("send", T + 2), ("send_err", T + 2)), ("2R", T + 2)), bound))
+        items.append(("sched", tier, (W, P, (("send", W + 1), ("send_err", P)), ("2R", 1000, W)), bound))
 
     def run(item, acc):
         if item[0] == "bfs":
